@@ -17,7 +17,7 @@ theorem step_recv {S : System} {pre : Trace} {o : OSt} {f f' : FSt} {t : Tid} {c
                    nrecv := upd o.nrecv c (o.nrecv c + 1) }, rfl, ?_⟩
   have hw := wg_frame g t (.recv c) (f' := { f with nrecv := upd f.nrecv c (f.nrecv c + 1) }) rfl
     (fun _ => nofun) (fun _ => nofun) (fun _ => nofun)
-  refine ⟨g.acquire_step (src := .msg c (o.nrecv c)) cx hH' nofun ?_ ?_ ?_, g.ns, ?_, ?_, g.ss, hw.1, hw.2⟩
+  refine ⟨g.acquire_step (src := .msg c (o.nrecv c)) cx hH' nofun ?_ ?_ ?_, g.ns, ?_, ?_, g.ss, hw.1, hw.2, rc_frame g t _ _ (fun _ h => h) (fun _ => nofun)⟩
   · intro k
     simp only [Exp, g.nr c]
     constructor
@@ -41,6 +41,7 @@ theorem step_recv {S : System} {pre : Trace} {o : OSt} {f f' : FSt} {t : Tid} {c
     · intro _ _; rfl
     · intro _ _; exact ⟨rfl, rfl⟩
     · intro _ _; exact ⟨nofun, nofun⟩
+    · intro _ _; exact ⟨rfl, nofun⟩
   · intro c'
     show upd o.nrecv c (o.nrecv c + 1) c' = upd f.nrecv c (f.nrecv c + 1) c'
     by_cases hc : c' = c
@@ -56,18 +57,30 @@ theorem step_recvC {S : System} (ok : S.OK) {pre : Trace} {o : OSt} {f f' : FSt}
     {H H' : List Tok}
     (g : GoodT S pre o f) (cx : Ctx S pre t (.recvC c) H H') (hF : stepF f (t, .recvC c) = some f') :
     ∃ o', stepO S.sp o (t, .recvC c) = some o' ∧ GoodT S (pre ++ [(t, .recvC c)]) o' f' := by
-  have hf := stepF_recvC hF
+  obtain ⟨hcl, hf⟩ := stepF_recvC hF
   subst hf
   have hE := cx.tE
   simp only [typeEv] at hE
   have hH' : H' = H ++ S.sp.closePay c := (Option.some.inj hE).symm
+  have hne : ∀ k, k ∈ S.sp.closePay c → S.sp.closePay c ≠ [] := by
+    intro k hk h; rw [h] at hk; cases hk
   refine ⟨{ o with loc := moveAll o.loc (.clo c) (.thr t) }, rfl, ?_⟩
   have hw := wg_frame g t (.recvC c) (f' := f') rfl (fun _ => nofun) (fun _ => nofun) (fun _ => nofun)
-  refine ⟨g.acquire_step (src := .clo c) cx hH' nofun ?_ ?_ ?_, g.ns, g.nr, g.le, g.ss, hw.1, hw.2⟩
-  · intro k
-    simp only [Exp, ok.close_empty c, List.not_mem_nil]
-  · intro k h
-    exact h
+  refine ⟨g.acquire_step (src := .clo c) cx hH' nofun ?_ ?_ ?_, g.ns, g.nr, g.le, g.ss, hw.1, hw.2,
+    rc_frame g t (.recvC c) _ (fun _ h => h) ?_⟩
+  · -- this is the first (and only) receive of the close, by the one receiver
+    intro k
+    simp only [Exp, hcl, true_and]
+    constructor
+    · intro hk; exact ⟨cx.recvc_fresh ok (hne k hk), hk⟩
+    · intro h; exact h.2
+  · -- afterwards the close has been received
+    intro k h
+    simp only [Exp] at h
+    have ht := cx.recvc_waiter ok (hne k h.2)
+    apply h.1.2
+    rw [← ht]
+    exact (mem_proj_snoc pre t t _ _).2 (Or.inr ⟨rfl, rfl⟩)
   · intro l hl1 hl2 k
     apply Exp_frame
     · exact thr_ne_of hl1
@@ -75,6 +88,13 @@ theorem step_recvC {S : System} (ok : S.OK) {pre : Trace} {o : OSt} {f f' : FSt}
     · intro _ _; rfl
     · intro _ _; exact ⟨rfl, rfl⟩
     · intro _ _; exact ⟨nofun, nofun⟩
+    · intro c' hl
+      subst hl
+      refine ⟨rfl, fun h => hl2 ?_⟩
+      cases h; rfl
+  · intro c' h
+    cases h
+    exact hcl
 
 theorem step_lock {S : System} {pre : Trace} {o : OSt} {f f' : FSt} {t : Tid} {m : Obj} {H H' : List Tok}
     (g : GoodT S pre o f) (cx : Ctx S pre t (.lock m) H H') (hF : stepF f (t, .lock m) = some f') :
@@ -87,7 +107,7 @@ theorem step_lock {S : System} {pre : Trace} {o : OSt} {f f' : FSt} {t : Tid} {m
   refine ⟨{ o with loc := moveAll o.loc (.mtx m) (.thr t) }, rfl, ?_⟩
   have hw := wg_frame g t (.lock m) (f' := { f with held := upd f.held m true }) rfl
     (fun _ => nofun) (fun _ => nofun) (fun _ => nofun)
-  refine ⟨g.acquire_step (src := .mtx m) cx hH' nofun ?_ ?_ ?_, g.ns, g.nr, g.le, g.ss, hw.1, hw.2⟩
+  refine ⟨g.acquire_step (src := .mtx m) cx hH' nofun ?_ ?_ ?_, g.ns, g.nr, g.le, g.ss, hw.1, hw.2, rc_frame g t _ _ (fun _ h => h) (fun _ => nofun)⟩
   · intro k
     simp only [Exp, hheld, true_and]
   · intro k
@@ -104,6 +124,7 @@ theorem step_lock {S : System} {pre : Trace} {o : OSt} {f f' : FSt} {t : Tid} {m
       exact upd_ne _ _ _ _ hm
     · intro _ _; exact ⟨rfl, rfl⟩
     · intro _ _; exact ⟨nofun, nofun⟩
+    · intro _ _; exact ⟨rfl, nofun⟩
 
 theorem step_start {S : System} {pre : Trace} {o : OSt} {f f' : FSt} {t : Tid} {H H' : List Tok}
     (g : GoodT S pre o f) (cx : Ctx S pre t .start H H') (hF : stepF f (t, .start) = some f') :
@@ -116,7 +137,7 @@ theorem step_start {S : System} {pre : Trace} {o : OSt} {f f' : FSt} {t : Tid} {
   refine ⟨{ o with loc := moveAll o.loc (.spw t) (.thr t) }, rfl, ?_⟩
   have hw := wg_frame g t .start (f' := { f with started := upd f.started t true }) rfl
     (fun _ => nofun) (fun _ => nofun) (fun _ => nofun)
-  refine ⟨g.acquire_step (src := .spw t) cx hH' nofun ?_ ?_ ?_, g.ns, g.nr, g.le, ?_, hw.1, hw.2⟩
+  refine ⟨g.acquire_step (src := .spw t) cx hH' nofun ?_ ?_ ?_, g.ns, g.nr, g.le, ?_, hw.1, hw.2, rc_frame g t _ _ (fun _ h => h) (fun _ => nofun)⟩
   · intro k
     simp only [Exp, hs.1, hs.2, true_and]
   · intro k
@@ -133,6 +154,7 @@ theorem step_start {S : System} {pre : Trace} {o : OSt} {f f' : FSt} {t : Tid} {
       have hu : u' ≠ t := fun h => hl2 (by rw [h])
       exact ⟨rfl, upd_ne _ _ _ _ hu⟩
     · intro _ _; exact ⟨nofun, nofun⟩
+    · intro _ _; exact ⟨rfl, nofun⟩
   · intro u' h
     show f.spawned u' = true
     by_cases hu : u' = t
@@ -164,7 +186,7 @@ theorem step_wgWait {S : System} (ok : S.OK) {pre : Trace} {o : OSt} {f f' : FSt
   simp only [typeEv] at hE
   have hH' : H' = H ++ waitPay S.sp S.kids w := (Option.some.inj hE).symm
   refine ⟨{ o with loc := moveAll o.loc (.wgb w) (.thr t) }, rfl, ?_⟩
-  refine ⟨g.acquire_step (src := .wgb w) cx hH' nofun ?_ ?_ ?_, g.ns, g.nr, g.le, g.ss, ?_, ?_⟩
+  refine ⟨g.acquire_step (src := .wgb w) cx hH' nofun ?_ ?_ ?_, g.ns, g.nr, g.le, g.ss, ?_, ?_, rc_frame g t _ _ (fun _ h => h) (fun _ => nofun)⟩
   · intro k
     simp only [Exp]
     rw [mem_waitPay]
@@ -183,6 +205,7 @@ theorem step_wgWait {S : System} (ok : S.OK) {pre : Trace} {o : OSt} {f f' : FSt
       subst hl
       refine ⟨fun h => hl2 ?_, nofun⟩
       cases h; rfl
+    · intro _ _; exact ⟨rfl, nofun⟩
   · intro w1 hw1
     have hne : w1 ≠ w := fun h => hw1 (h ▸ hw')
     have hne' : Ev.wgWait w ≠ Ev.wgWait w1 := fun h => hne (by cases h; rfl)
@@ -209,7 +232,7 @@ theorem step_wgAdd {S : System} (ok : S.OK) {pre : Trace} {o : OSt} {f f' : FSt}
   simp only [typeEv] at hE
   have hH : H' = H := (Option.some.inj hE).symm
   refine ⟨o, rfl, ?_⟩
-  refine ⟨?_, g.ns, g.nr, g.le, g.ss, ?_, ?_⟩
+  refine ⟨?_, g.ns, g.nr, g.le, g.ss, ?_, ?_, rc_frame g t _ _ (fun _ h => h) (fun _ => nofun)⟩
   · apply g.same_loc cx (by rw [hH]; exact fun _ => Iff.rfl)
     intro l hl k
     apply Exp_frame
@@ -218,6 +241,7 @@ theorem step_wgAdd {S : System} (ok : S.OK) {pre : Trace} {o : OSt} {f f' : FSt}
     · intro _ _; rfl
     · intro _ _; exact ⟨rfl, rfl⟩
     · intro _ _; exact ⟨nofun, nofun⟩
+    · intro _ _; exact ⟨rfl, nofun⟩
   · intro w1 hw1
     rw [waited_snoc_of_ne S pre t (.wgAdd w) w1 nofun] at hw1
     rw [doneCount_snoc_of_ne S pre t (.wgAdd w) w1 nofun]
